@@ -81,9 +81,16 @@ def run_hists(ctx, hists):
         lines.append(json.dumps({"op": "init", "n": n, "ack": ack}))
         lines += [json.dumps({"op": o}) for o in ops]
         idx.append(len(lines))
-    impl, model = ctx.pair("pause", lines, timeout=3000)
+    impl, model = ctx.pair("pause", lines, timeout=3000, partial=True)
     pos = 0
     for (n, ops), end in zip(hists, idx):
+        if end > len(impl):
+            # the harness died in the middle of this history: the ones before it have been judged
+            nv = len(ctx.violations)
+            if not nv:
+                ctx.violation("the pause package took the process down during history %s: %s" % (ops, (ctx.harness_death or "")[:400]),
+                              {"domain": "pause", "n": n, "ops": ops, "impl": impl[pos:]})
+            break
         a, b = impl[pos:end], model[pos:end]
         pos = end
         ctx.case("%d%s" % (n, ops), nontrivial(ops) and n > 0)
@@ -129,9 +136,14 @@ def busy_histories(ctx, count, only=None):
         lines.append(json.dumps({"op": "init", "n": n, "ack": ack}))
         lines += [json.dumps({"op": o} if isinstance(o, str) else {"op": o[0], "i": o[1]}) for o in ops]
         idx.append(len(lines))
-    impl, model = ctx.pair("pause", lines, timeout=3000)
+    impl, model = ctx.pair("pause", lines, timeout=3000, partial=True)
     pos = 0
     for (n, ops), end in zip(hists, idx):
+        if end > len(impl):
+            if not len(ctx.violations):
+                ctx.violation("the pause package took the process down during busy-worker history %s: %s" % (ops, (ctx.harness_death or "")[:400]),
+                              {"domain": "pause-busy", "n": n, "ops": ops, "impl": impl[pos:]})
+            break
         a, b = impl[pos:end], model[pos:end]
         pos = end
         ctx.case("busy%d%s" % (n, ops), True)
@@ -155,7 +167,7 @@ def busy_histories(ctx, count, only=None):
 def corpus(ctx):
     d = os.path.join(core.VERIF, "corpus", "C14")
     out = []
-    for f in sorted(os.listdir(d)) if os.path.isdir(d) else []:
+    for f in sorted(x for x in os.listdir(d) if x.endswith(".jsonl")) if os.path.isdir(d) else []:
         for l in open(os.path.join(d, f)):
             if l.strip():
                 j = json.loads(l)
@@ -190,6 +202,9 @@ def real_stages(ctx):
     from . import e2e
     r = ctx.rng
     scns = []
+    d = os.path.join(core.VERIF, "corpus", "C14")
+    for f in sorted(x for x in os.listdir(d) if x.endswith(".json")) if os.path.isdir(d) else []:
+        scns.append(json.load(open(os.path.join(d, f)))["scenario"])       # past failures first (D27: pause right after start-up)
     for k in range(6 if ctx.thorough() else 2):
         pages = {}
         seeds = []
